@@ -540,18 +540,34 @@ class PoolStub:
     def __init__(self, processes=None, *a, **k):
         self.processes = processes
 
+    forced_orders = None      # list of orders to use (replay of a witness schedule), consumed call by call
+
     def _order(self, n):
+        if PoolStub.forced_orders:
+            o = PoolStub.forced_orders.pop(0)
+            if sorted(o) == list(range(n)):
+                return list(o)
         ex = St.explorer
         order = list(range(n))
         if ex is None or not getattr(St, "fork_schedules", False) or n <= 1:
             return order
-        # Lehmer-code choice of a permutation through free decisions
-        out = []
-        rest = list(range(n))
-        while rest:
-            i = ex.choose_free(len(rest))
-            out.append(rest.pop(i))
-        return out
+        if n <= 4:
+            # every permutation (Lehmer code through free decisions)
+            out = []
+            rest = list(range(n))
+            while rest:
+                i = ex.choose_free(len(rest))
+                out.append(rest.pop(i))
+            return out
+        # larger task sets: a fixed family of schedules (in order, reversed, every rotation, every adjacent swap)
+        fam = [list(range(n)), list(range(n - 1, -1, -1))]
+        for r in range(1, n):
+            fam.append(list(range(r, n)) + list(range(r)))
+        for a in range(n - 1):
+            o = list(range(n))
+            o[a], o[a + 1] = o[a + 1], o[a]
+            fam.append(o)
+        return fam[ex.choose_free(len(fam))]
 
     def map(self, fn, iterable, chunksize=None):
         items = list(iterable)
@@ -566,8 +582,13 @@ class PoolStub:
         return iter(self.map(fn, iterable))
 
     def imap_unordered(self, fn, iterable, chunksize=1):
+        """results in completion order; tasks are handed out in chunks of `chunksize`, chunks complete in any
+        order (forked), a chunk's results arrive together and in order"""
         items = list(iterable)
-        order = self._order(len(items))
+        c = max(1, int(chunksize or 1))
+        chunks = [list(range(i, min(i + c, len(items)))) for i in range(0, len(items), c)]
+        corder = self._order(len(chunks))
+        order = [i for ci in corder for i in chunks[ci]]
         PoolStub.executed.append(("imap_unordered", order))
         return iter([fn(items[i]) for i in order])
 
